@@ -270,6 +270,7 @@ func run(c *hlib.Ctx) {
 	runShapes2(c, g, n)
 	runPrims(c, g, n)
 	runMesh(c, g, n/4+1)
+	runMesh2(c, g, n/3+1)
 	runProfile(c, g, n)
 	runColliderSDF(c, g, n/2+1)
 	runExact(c, g, n)
